@@ -50,6 +50,9 @@ func genCalls(r *lib.Rng, p *c10Pool, st map[string]int) []c10Call {
 	}
 	var calls []c10Call
 	seen := map[string]bool{}
+	if strings.HasPrefix(p.Class, "pencil") {
+		cats = []int{0, 0, 0, 0, 0, 0, 0, 0, 0, 1, 1, 1, 2, 3, 3, 4, 5}
+	}
 	if p.Class == "invalid" {
 		cats = []int{0, 0, 0, 0, 2, 3, 3, 4, 5}
 		for _, cl := range errorCalls(p) {
@@ -114,7 +117,7 @@ func main() {
 		if *only >= 0 && i != *only {
 			continue
 		}
-		p := genPool(r, st)
+		p := genPoolAt(i, r, st)
 		calls := genCalls(r, p, st)
 		sched := schedule(r, calls, *repsO, 3)
 		store0 := p.store()
@@ -141,7 +144,11 @@ func main() {
 					canons = append(canons, c.Key+"="+canon)
 				}
 			} else if prev != obs && len(notes) < 3 {
-				notes = append(notes, fmt.Sprintf("call %s returned %s and later %s", c.Key, clip(prev, 300), clip(obs, 300)))
+				if strings.HasPrefix(p.Class, "pencil") {
+					notes = append(notes, clip(pencilNote(p, c.Key, prev, obs), 4000))
+				} else {
+					notes = append(notes, fmt.Sprintf("call %s returned %s and later %s", c.Key, clip(prev, 300), clip(obs, 300)))
+				}
 			}
 			sd := p.store()
 			if sd != store0 && len(notes) < 3 {
@@ -206,7 +213,7 @@ func raceMode(a lib.Args, only int) {
 		if only >= 0 && i != only {
 			continue
 		}
-		p := genPool(r, st)
+		p := genPoolAt(i, r, st)
 		calls := genCalls(r, p, st)
 		_ = schedule(r, calls, 1, 1) // keep the PRNG stream aligned with hist mode
 		store0 := p.store()
